@@ -393,7 +393,7 @@ func (e *Engine) contractModComps(con *Contract, f *ssa.Function) compSet {
 			env[r] = sig.Results().At(j).Type()
 		}
 	}
-	return modCompsEnv(con, env)
+	return e.modCompsEnv(con, env)
 }
 
 func (e *Engine) contractModCompsSig(con *Contract, sig *types.Signature, invoke bool) compSet {
@@ -408,23 +408,23 @@ func (e *Engine) contractModCompsSig(con *Contract, sig *types.Signature, invoke
 		}
 		i++
 	}
-	return modCompsEnv(con, env)
+	return e.modCompsEnv(con, env)
 }
 
-func modCompsEnv(con *Contract, env map[string]types.Type) compSet {
+func (en *Engine) modCompsEnv(con *Contract, env map[string]types.Type) compSet {
 	out := compSet{}
 	for _, m := range con.Modifies {
-		specLvalComps(m, env, out)
+		en.specLvalComps(m, env, out)
 	}
 	return out
 }
 
-func specStaticType(e *SExpr, env map[string]types.Type) types.Type {
+func (en *Engine) specStaticType(e *SExpr, env map[string]types.Type) types.Type {
 	switch e.Kind {
 	case SIdent:
 		return env[e.Name]
 	case SField:
-		t := specStaticType(e.X, env)
+		t := en.specStaticType(e.X, env)
 		if t == nil {
 			return nil
 		}
@@ -436,7 +436,7 @@ func specStaticType(e *SExpr, env map[string]types.Type) types.Type {
 			return ft
 		}
 	case SIndex:
-		t := specStaticType(e.X, env)
+		t := en.specStaticType(e.X, env)
 		if t == nil {
 			return nil
 		}
@@ -449,15 +449,44 @@ func specStaticType(e *SExpr, env map[string]types.Type) types.Type {
 			return u.Elem()
 		}
 	case SSlice:
-		return specStaticType(e.X, env)
+		return en.specStaticType(e.X, env)
+	case SCall:
+		if (e.Name == "ptr" || e.Name == "asptr") && len(e.Args) == 2 {
+			if t, err := en.typeByName(selName(e.Args[1])); err == nil {
+				return t
+			}
+			return nil
+		}
+		if d, ok := en.defs[e.Name]; ok && d.Body != nil && len(d.Params) == len(e.Args) {
+			sub := map[string]types.Type{}
+			for i, p := range d.Params {
+				sub[p] = en.specStaticType(e.Args[i], env)
+			}
+			return en.specStaticType(d.Body, sub)
+		}
 	}
 	return nil
 }
 
-func specLvalComps(e *SExpr, env map[string]types.Type, out compSet) {
+func (en *Engine) typeByName(name string) (types.Type, error) {
+	ptr := strings.HasPrefix(name, "*")
+	bare := strings.TrimPrefix(name, "*")
+	for _, t := range en.allNamed {
+		if typeShort(t) == bare {
+			var tt types.Type = t
+			if ptr {
+				tt = types.NewPointer(t)
+			}
+			return tt, nil
+		}
+	}
+	return nil, fmt.Errorf("unknown type %q", name)
+}
+
+func (en *Engine) specLvalComps(e *SExpr, env map[string]types.Type, out compSet) {
 	switch e.Kind {
 	case SField:
-		t := specStaticType(e.X, env)
+		t := en.specStaticType(e.X, env)
 		if t == nil {
 			return
 		}
@@ -471,7 +500,7 @@ func specLvalComps(e *SExpr, env map[string]types.Type, out compSet) {
 			}
 		}
 	case SIndex, SSlice:
-		t := specStaticType(e.X, env)
+		t := en.specStaticType(e.X, env)
 		if t == nil {
 			return
 		}
@@ -486,8 +515,16 @@ func specLvalComps(e *SExpr, env map[string]types.Type, out compSet) {
 			mapSComps(u, out)
 		}
 	case SCall:
+		if d, ok := en.defs[e.Name]; ok && d.Body != nil && len(d.Params) == len(e.Args) {
+			sub := map[string]types.Type{}
+			for i, p := range d.Params {
+				sub[p] = en.specStaticType(e.Args[i], env)
+			}
+			en.specLvalComps(d.Body, sub, out)
+			return
+		}
 		if e.Name == "deref" && len(e.Args) == 1 {
-			if t := specStaticType(e.Args[0], env); t != nil {
+			if t := en.specStaticType(e.Args[0], env); t != nil {
 				if p, ok := t.Underlying().(*types.Pointer); ok {
 					compsOfStore(p.Elem(), cellComp(p.Elem()), out)
 				}
@@ -497,7 +534,7 @@ func specLvalComps(e *SExpr, env map[string]types.Type, out compSet) {
 			out.add(sComp{Name: "ghost." + e.Name, Kind: scGhost, Sort: ghostMapSorts[e.Name]})
 		}
 		if e.Name == "all" && len(e.Args) == 1 {
-			t := specStaticType(e.Args[0], env)
+			t := en.specStaticType(e.Args[0], env)
 			if t == nil {
 				return
 			}
@@ -568,12 +605,41 @@ func (e *Engine) loadPreludeSyms() {
 		if err != nil {
 			continue
 		}
-		for _, l := range strings.Split(string(b), "\n") {
-			if i := strings.Index(l, ";"); i >= 0 {
-				l = l[:i]
-			}
-			for _, s := range symRe.FindAllString(l, -1) {
+		forms, err := parseTop(string(b))
+		if err != nil {
+			// fall back to the lexical scan
+			for _, s := range symRe.FindAllString(string(b), -1) {
 				e.preludeSyms[s] = true
+			}
+			continue
+		}
+		for _, tf := range forms {
+			f := tf.form
+			if f == nil || !f.isList || len(f.list) < 2 || f.list[0].isList {
+				continue
+			}
+			switch f.list[0].atom {
+			case "declare-fun", "define-fun", "define-fun-rec", "declare-const", "define-const", "declare-sort":
+				if !f.list[1].isList {
+					e.preludeSyms[f.list[1].atom] = true
+				}
+			case "declare-datatypes":
+				// every sort, constructor and selector name
+				var walk func(x *sexp)
+				walk = func(x *sexp) {
+					if !x.isList {
+						if symRe.MatchString(x.atom) {
+							e.preludeSyms[x.atom] = true
+						}
+						return
+					}
+					for _, y := range x.list {
+						walk(y)
+					}
+				}
+				for _, x := range f.list[1:] {
+					walk(x)
+				}
 			}
 		}
 	}
